@@ -190,6 +190,29 @@ func ParseCopySourceRange(size int64, acceptRange string) (int64, int64, error) 
 	return startOffset, endOffset - startOffset + 1, nil
 }
 
+// IsObjectNameValid reports whether an object key can be mapped below its
+// bucket without being resolved to another location: no "." or ".."
+// segment and no empty segment other than a single trailing one (which
+// marks a directory object).
+func IsObjectNameValid(name string) bool {
+	segs := strings.Split(name, "/")
+	for i, s := range segs {
+		if s == "." || s == ".." {
+			return false
+		}
+		if s == "" && i != len(segs)-1 {
+			return false
+		}
+	}
+	return true
+}
+
+// IsOpaqueIDValid reports whether a client supplied identifier (bucket
+// name, version id, upload id) is a single path element.
+func IsOpaqueIDValid(id string) bool {
+	return id != "." && id != ".." && !strings.ContainsAny(id, "/\x00")
+}
+
 // ParseCopySource parses x-amz-copy-source header and returns source bucket,
 // source object, versionId, error respectively
 func ParseCopySource(copySourceHeader string) (string, string, string, error) {
@@ -208,6 +231,9 @@ func ParseCopySource(copySourceHeader string) (string, string, string, error) {
 
 	srcBucket, srcObject, ok := strings.Cut(copySource, "/")
 	if !ok {
+		return "", "", "", s3err.GetAPIError(s3err.ErrInvalidCopySource)
+	}
+	if !IsOpaqueIDValid(srcBucket) || !IsObjectNameValid(srcObject) || !IsOpaqueIDValid(versionId) {
 		return "", "", "", s3err.GetAPIError(s3err.ErrInvalidCopySource)
 	}
 
